@@ -109,3 +109,23 @@ func (m *TimeoutManager) VState() VTimeoutState {
 		HandshakeOriginal:   m.handshakeBooster.originalTimeout,
 	}
 }
+
+// VClosed reports whether the connection's quit channel has been closed.
+func (g *GoBackNConn) VClosed() bool {
+	select {
+	case <-g.quit:
+		return true
+	default:
+		return false
+	}
+}
+
+// VRemoteClosed reports whether a FIN of the peer has been processed.
+func (g *GoBackNConn) VRemoteClosed() bool {
+	select {
+	case <-g.remoteClosed:
+		return true
+	default:
+		return false
+	}
+}
